@@ -99,6 +99,23 @@ func runC01(c *Ctx) {
 	if c.Thorough() {
 		ntypes = 30000
 	}
+	// the systematic part: every field kind x position x tag x characteristic value
+	if !c.IsWorker() {
+		FieldMatrix(func(t reflect.Type, v reflect.Value) {
+			iv := v.Interface()
+			if strings.HasPrefix(c01ClassOf(iv, nil, nil, nil, nil), "C08-") {
+				c.Rep.Known[c01ClassOf(iv, nil, nil, nil, nil)]++
+				return
+			}
+			c01Compare(c, "matrix", iv, t)
+			encOps(c, iv, true)
+			p := reflect.New(t)
+			p.Elem().Set(v)
+			if !strings.HasPrefix(c01ClassOf(p.Interface(), nil, nil, nil, nil), "C08-") {
+				c01Compare(c, "matrix-ptr", p.Interface(), p.Type())
+			}
+		})
+	}
 	gen := func(rng *rand.Rand) (reflect.Type, []reflect.Value) {
 		g := &Gen{R: rng}
 		t := g.Type(1 + rng.Intn(4))
@@ -229,7 +246,7 @@ type c01Facts struct {
 	ptrShapedMute   bool // a pointer-shaped struct (one pointer/map field) none of whose fields produces a member
 	stringMultiPtr  bool // `,string` on a field with two or more pointer levels
 	omitPtrShaped   bool // omitempty on a field whose type is a pointer-shaped struct
-	ptrShapeDepth   bool // a pointer-shaped struct or array, two or more pointer levels, or a pointer to an interface
+	ptrShapeDepth   bool // a pointer-shaped struct whose only field points to a struct, two or more pointer levels, or a pointer to an interface
 	unaddrMarshaler bool // a value whose pointer type is a (Text)Marshaler, reached where encoding/json cannot take its address
 	ptrPtrMarshaler bool // two or more pointer levels above a type with a pointer-receiver marshaler
 	omitPtrToNil    bool // omitempty field: non-nil pointer to a nil pointer / map / slice / interface
@@ -296,8 +313,15 @@ func c01WalkB(v reflect.Value, atIface bool, addr bool, inChain bool, f *c01Fact
 	if t.Kind() == reflect.Struct && ptrShaped(t) && emitsNothing(t) {
 		f.ptrShapedMute = true
 	}
-	if (t.Kind() == reflect.Struct || t.Kind() == reflect.Array) && ptrShaped(t) {
-		f.ptrShapeDepth = true
+	if t.Kind() == reflect.Struct && ptrShaped(t) {
+		// a struct held directly in an interface word whose only field is a pointer to a struct
+		inner := t.Field(0).Type
+		for inner.Kind() == reflect.Struct && inner.NumField() == 1 {
+			inner = inner.Field(0).Type
+		}
+		if inner.Kind() == reflect.Ptr && inner.Elem().Kind() == reflect.Struct {
+			f.ptrShapeDepth = true
+		}
 	}
 	if t.Kind() == reflect.Ptr && (t.Elem().Kind() == reflect.Ptr || t.Elem().Kind() == reflect.Interface) {
 		f.ptrShapeDepth = true
